@@ -18,7 +18,9 @@ import frames_lib as fl
 THEOREMS = ['C10_prefix', 'C10_fails_at_first_deviation', 'C10_deviating_frame_rejected', 'C10_foreign_session_frame_rejected', 'C10_oversize_length_panics', 'C10_nonces_distinct',
             'C10_no_nonce_reuse', 'C10_no_key_no_command', 'C10_reflection_only_no_command', 'C10_segmentation',
             'C14_stream', 'C10_refuted_without_bump', 'C10_code_advances_counter', 'C10_buffer_matches_code',
-            'C10_premises_satisfiable']
+            'C10_premises_satisfiable',
+            # one whole boss <-> remote doer session (Model/RemoteSession.v + RemoteSessionLog.v): every frame ever written, the doer's final message included
+            'C10_remote_nonces_distinct', 'C10_remote_expected_nonce', 'C10_remote_log_is_conservative']
 
 SIZES = [0, 1, 5, 16, 17, 100, 255, 256, 300, 1000, 31, 64, 4096, 2, 700, 33]
 N_MSGS = 14
